@@ -322,7 +322,7 @@ func (l *layout) simCompressedRead(vOff uint64, want int64, pm map[string]map[in
 			return out, true, est
 		}
 		data := lf.chunks[c].data
-		at := func(i int64) byte { return data[i] ^ pm[lf.region][c*lf.fileSize+i] }
+		at := func(i int64) byte { return data[i] ^ pm[lf.region][c<<32|i] } // patches of a compressed log carry synthetic offsets
 		if in+4 > int64(len(data)) {
 			return out, true, est
 		}
@@ -859,6 +859,7 @@ type storeCtx struct {
 	truncExp map[int]string // tx -> hex of the export without values
 	selftest bool
 	quick    bool
+	digest   string // of the pristine directory
 }
 
 func (sc *storeCtx) judge(path string, alt *alteration, items []item) pathObs {
@@ -1044,6 +1045,63 @@ func childIndex(img string, sc *storeCtx) []item {
 	return items
 }
 
+// prepareStore builds the real store of a class, parses it with the independent parser and records what every read
+// path returns on an unaltered image (every read must succeed and return what the workload committed)
+func prepareStore(sdir string, c *cfgClass, seed int64, quick bool, res *vh.Result) *storeCtx {
+	pdir := filepath.Join(sdir, "pristine")
+	vh.Must(os.MkdirAll(sdir, 0755), "mkdir")
+	ntx := buildStore(pdir, c, seed)
+	lay, err := parseLayout(pdir, c, ntx)
+	if err != nil {
+		vh.Fatalf("%s: the independent parser does not reproduce the store: %v", c.Name, err)
+	}
+	digest := dirDigest(pdir)
+	sc := &storeCtx{cfg: c, dir: pdir, lay: lay, pristine: map[string]item{}, truncExp: map[int]string{}, quick: quick, digest: digest}
+
+	// pristine session on an unaltered image: every read must succeed
+	img := filepath.Join(sdir, "img-pristine")
+	makeImage(pdir, img, nil, false)
+	oit, o := openStore(img, c)
+	if o == nil {
+		vh.Fatalf("%s: pristine image does not open: %+v", c.Name, oit)
+	}
+	items := append([]item{oit}, runPaths(o, lay)...)
+	o.close()
+	os.RemoveAll(img)
+	makeImage(pdir, img, nil, true)
+	items = append(items, runIndexRebuild(img, c, lay)...)
+	os.RemoveAll(img)
+	for _, it := range items {
+		if it.Err != "" || it.Panic != "" || it.Hung {
+			vh.Fatalf("%s: read of the pristine store failed: %+v", c.Name, it)
+		}
+		if _, dup := sc.pristine[it.key()]; dup {
+			vh.Fatalf("%s: duplicate observation key %s", c.Name, it.key())
+		}
+		sc.pristine[it.key()] = it
+		res.Count("pristine-reads:"+it.Path, 1)
+	}
+	for k := 1; k <= ntx; k++ {
+		full := sc.pristine[fmt.Sprintf("%s|%d|export", pExport, k)].Content
+		fb, err := hex.DecodeString(full)
+		vh.Must(err, "decode export")
+		sc.truncExp[k] = fmt.Sprintf("%x", truncatedExport(fb, &lay.txs[k-1]))
+	}
+	// the pristine content must be what the workload committed (parser vs. API)
+	w := workload(c, seed)
+	for k, t := range w {
+		for e, en := range t.Entries {
+			got := sc.pristine[fmt.Sprintf("%s|%d|via-ReadTx:%d", pValue, k+1, e)].Content
+			want := fmt.Sprintf("key=%x value=%x", en.Key, en.Val)
+			if got != want || !bytes.Equal(lay.txs[k].Entries[e].Value, en.Val) && len(en.Val) > 0 {
+				vh.Fatalf("%s: tx %d entry %d: store returns %s, committed %s", c.Name, k+1, e, got, want)
+			}
+		}
+	}
+
+	return sc
+}
+
 // ---- main
 func main() {
 	casesPath := flag.String("cases", "", "matrix written by TLC from spec/Corruption.tla")
@@ -1059,6 +1117,7 @@ func main() {
 	class := flag.String("class", "", "(internal)")
 	pristineDir := flag.String("pristine", "", "(internal)")
 	dump := flag.Bool("dump", false, "print the observed matrix to stderr")
+	replayFile := flag.String("replay-file", "", "re-execute the alteration of a replay file written by the check (class, seed, alteration) and report it")
 	repro := flag.Bool("repro", false, "run the minimal reproductions of the known findings in -dir and print them")
 	flag.Parse()
 
@@ -1096,6 +1155,10 @@ func main() {
 		vh.Must(json.NewEncoder(os.Stdout).Encode(runRepros(*dir, *seed)), "encode")
 		return
 	}
+	if *replayFile != "" {
+		runReplay(*replayFile, *dir)
+		return
+	}
 	if *workers > 8 {
 		*workers = 8
 	}
@@ -1127,56 +1190,8 @@ func main() {
 		}
 		ts := time.Now()
 		sdir := filepath.Join(*dir, c.Name)
-		pdir := filepath.Join(sdir, "pristine")
-		vh.Must(os.MkdirAll(sdir, 0755), "mkdir")
-		ntx := buildStore(pdir, c, *seed)
-		lay, err := parseLayout(pdir, c, ntx)
-		if err != nil {
-			vh.Fatalf("%s: the independent parser does not reproduce the store: %v", c.Name, err)
-		}
-		digest := dirDigest(pdir)
-		sc := &storeCtx{cfg: c, dir: pdir, lay: lay, pristine: map[string]item{}, truncExp: map[int]string{}, quick: quick}
-
-		// pristine session on an unaltered image: every read must succeed
-		img := filepath.Join(sdir, "img-pristine")
-		makeImage(pdir, img, nil, false)
-		oit, o := openStore(img, c)
-		if o == nil {
-			vh.Fatalf("%s: pristine image does not open: %+v", c.Name, oit)
-		}
-		items := append([]item{oit}, runPaths(o, lay)...)
-		o.close()
-		os.RemoveAll(img)
-		makeImage(pdir, img, nil, true)
-		items = append(items, runIndexRebuild(img, c, lay)...)
-		os.RemoveAll(img)
-		for _, it := range items {
-			if it.Err != "" || it.Panic != "" || it.Hung {
-				vh.Fatalf("%s: read of the pristine store failed: %+v", c.Name, it)
-			}
-			if _, dup := sc.pristine[it.key()]; dup {
-				vh.Fatalf("%s: duplicate observation key %s", c.Name, it.key())
-			}
-			sc.pristine[it.key()] = it
-			res.Count("pristine-reads:"+it.Path, 1)
-		}
-		for k := 1; k <= ntx; k++ {
-			full := sc.pristine[fmt.Sprintf("%s|%d|export", pExport, k)].Content
-			fb, err := hex.DecodeString(full)
-			vh.Must(err, "decode export")
-			sc.truncExp[k] = fmt.Sprintf("%x", truncatedExport(fb, &lay.txs[k-1]))
-		}
-		// the pristine content must be what the workload committed (parser vs. API)
-		w := workload(c, *seed)
-		for k, t := range w {
-			for e, en := range t.Entries {
-				got := sc.pristine[fmt.Sprintf("%s|%d|via-ReadTx:%d", pValue, k+1, e)].Content
-				want := fmt.Sprintf("key=%x value=%x", en.Key, en.Val)
-				if got != want || !bytes.Equal(lay.txs[k].Entries[e].Value, en.Val) && len(en.Val) > 0 {
-					vh.Fatalf("%s: tx %d entry %d: store returns %s, committed %s", c.Name, k+1, e, got, want)
-				}
-			}
-		}
+		sc := prepareStore(sdir, c, *seed, quick, res)
+		pdir, lay, digest := sc.dir, sc.lay, sc.digest
 
 		// alterations
 		g := &gen{lay: lay, rng: rand.New(rand.NewSource(*seed*1000 + int64(ci))), quick: quick, hugeDone: map[string]bool{}}
@@ -1462,3 +1477,62 @@ func reasonTag(by string) string {
 }
 
 var _ = binary.BigEndian
+
+// runReplay re-executes one recorded alteration: the store is rebuilt from (class, seed, tier), the recorded byte
+// patches are applied and every read path is judged again
+func runReplay(file, dir string) {
+	var rf struct {
+		Tier   string `json:"tier"`
+		Replay struct {
+			Class      string     `json:"class"`
+			Seed       int64      `json:"seed"`
+			Alteration alteration `json:"alteration"`
+			Path       string     `json:"path"`
+		} `json:"replay"`
+	}
+	vh.ReadJSON(file, &rf)
+	quick := rf.Tier != "thorough"
+	quickWorkload = quick
+	res := vh.NewResult()
+	for i := range classes {
+		c := &classes[i]
+		if c.Name != rf.Replay.Class {
+			continue
+		}
+		sdir := filepath.Join(dir, c.Name)
+		sc := prepareStore(sdir, c, rf.Replay.Seed, quick, res)
+		sc.quick = false // run the index rebuild path as well
+		alt := rf.Replay.Alteration
+		for k := range alt.Patches { // recompute the physical location from the logical one (and compare)
+			p := &alt.Patches[k]
+			f, fo, err := sc.lay.logs[p.Region].phys(p.Off)
+			if err != nil || f != p.File || fo != p.FOff {
+				vh.Fatalf("replay: patch %d does not map to the same file position (%s+%d vs %s+%d): store differs from the recorded one", k, f, fo, p.File, p.FOff)
+			}
+		}
+		r := sc.run(&alt, sc.newWorkerImg(sdir, 0), 0, "")
+		for _, p := range allPaths {
+			o := r.obs[p]
+			res.Evaluations++
+			res.Count("obs:"+p+":"+o.Kind, 1)
+			if o.Kind == "diff" || o.Kind == "panic" || o.Kind == "hang" {
+				var sig string
+				switch o.Kind {
+				case "panic":
+					sig = "panic:" + o.Detail
+				case "hang":
+					sig = "hang:" + p + ":" + o.Detail
+				default:
+					sig = "altered-content-served:" + rootCause(&alt) + ":" + p + ":" + altKey(alt.Alts)
+				}
+				res.Violate(sig, fmt.Sprintf("replay of %s, %s, path %s: %s: %s", c.Name, alt.Desc, p, o.Kind, o.Detail),
+					map[string]interface{}{"class": c.Name, "seed": rf.Replay.Seed, "alteration": alt, "path": p, "observation": o.Item})
+			}
+		}
+		res.Distinct = len(allPaths)
+		os.RemoveAll(sdir)
+		res.Emit()
+		return
+	}
+	vh.Fatalf("replay: unknown class %q", rf.Replay.Class)
+}
